@@ -35,7 +35,7 @@ func TestDriver(t *testing.T) {
 	}
 	rd := bufio.NewReaderSize(in, 1<<20)
 
-	wd := 10 * time.Second
+	wd := 4 * time.Second
 	if v := os.Getenv("VERIF_WATCHDOG_S"); v != "" {
 		n, _ := strconv.Atoi(v)
 		wd = time.Duration(n) * time.Second
